@@ -120,6 +120,11 @@ func c08Scenarios(tier string) []c08Scenario {
 	for p := 0; p+1 < n; p += 2 {
 		out = append(out, c08Scenario{fmt.Sprintf("programs %d,%d crossed", p, p+1), [][][2]int{{{p, 0}, {p + 1, 1}}, {{p + 1, 0}, {p, 1}}}})
 	}
+	// programs over the shared POINTER environment (its fields are addressable)
+	for k := range c08lib.PtrSources {
+		out = append(out, c08Scenario{fmt.Sprintf("pointer environment, program %d in two threads", k), [][][2]int{{{n + k, 2}}, {{n + k, 2}}}})
+	}
+	out = append(out, c08Scenario{"pointer environment, crossed", [][][2]int{{{n, 2}, {n + 1, 2}}, {{n + 2, 2}, {n, 2}}}})
 	// three threads
 	out = append(out,
 		c08Scenario{"three threads: regexp, dynamic pattern, failing run", [][][2]int{{{0, 0}}, {{5, 1}}, {{6, 0}}}},
@@ -160,7 +165,7 @@ func c08(r *report.Run) {
 		r.Note("debug stepping seam not found: scheduler pass impossible")
 		r.Set("exhaustive", false)
 	}
-	envs := []interface{}{c08lib.EnvA(), c08lib.EnvB()}
+	envs := []interface{}{c08lib.EnvA(), c08lib.EnvB(), c08lib.EnvP()}
 	envSnap := snap.String(envs)
 	solo := make([][]string, len(envs))
 	ref, err := c08lib.CompileAll(c08lib.Env{})
@@ -221,12 +226,12 @@ func c08(r *report.Run) {
 					outcomes[got] = true
 					if ri < len(t.outs) && got == want {
 						if again := c08lib.Result(t.outs[ri], t.errs[ri]); again != got {
-							r.Report(report.Violation{Sub: "scheduler", Kind: "result-changed-after-the-run-returned", Witness: fmt.Sprintf("program %q", c08lib.Sources[pe[0]]), Order: order,
+							r.Report(report.Violation{Sub: "scheduler", Kind: "result-changed-after-the-run-returned", Witness: fmt.Sprintf("program %q", c08lib.Source(pe[0])), Order: order,
 								Detail: map[string]interface{}{"scenario": sc.name, "schedule": fmt.Sprint(schedule), "thread": ti, "returned": got, "later": again}})
 						}
 					}
 					if got != want {
-						r.Report(report.Violation{Sub: "scheduler", Kind: "result-differs-from-solo", Witness: fmt.Sprintf("program %q", c08lib.Sources[pe[0]]), Order: order,
+						r.Report(report.Violation{Sub: "scheduler", Kind: "result-differs-from-solo", Witness: fmt.Sprintf("program %q", c08lib.Source(pe[0])), Order: order,
 							Detail: map[string]interface{}{"scenario": sc.name, "schedule": fmt.Sprint(schedule), "thread": ti, "expected": want, "observed": got}})
 					}
 				}
